@@ -46,3 +46,8 @@ CASES = [
       "        if self.Hamiltonian.has_rwa:\n            HH = self.Hamiltonian.get_RWA_data()\n        else:\n            HH = self.Hamiltonian.data\n\n\n        if self.has_NonHerm:",
       "        hobj = self.Hamiltonian\n        if hobj.has_rwa:\n            HH = hobj.get_RWA_data()\n        else:\n            HH = hobj.data\n\n\n        if self.has_NonHerm:"),
 ]
+
+CASES += [
+    m("refinement setter ignores an unchanged value", "C15-E2", P,
+      "        self.Nref = Nref\n        self.dt = self.Odt/self.Nref", "        if Nref == self.Nref:\n            return\n        self.Nref = Nref\n        self.Nref = max(Nref, 2)\n        self.dt = self.Odt/self.Nref"),
+]
